@@ -16,7 +16,7 @@ RT_TEXT = ("Lean 4 theorems about the executable mechanism model P of the runtim
            "specification S (Sigc/Props/%s.lean and the shared Props/Refine.lean — P is allowed by S' = S with the two known "
            "findings reproduced, for every program, including the harness teardown and the printed text: refines, "
            "runProgram_refines —, Props/SpecK.lean — S' = S on every run the executable predicate clearTop accepts —, "
-           "Props/SpecProps.lean — the statements read off S; all audited with #print axioms on every run) + correspondence "
+           "Props/SpecProps.lean — the statements read off S —, Props/Fuel.lean — every program terminates and its printed text does not depend on the fuel; all audited with #print axioms on every run) + correspondence "
            "check on every run: the real library, built from /repo's current working tree with ASan/UBSan/LSan, P and S are "
            "run on the directed corpus and on generated programs of the total operation language (docs/LANGUAGE.md); a trace "
            "of the real library that the specification does not allow (or a sanitizer report) is reported with the shrunk "
